@@ -48,6 +48,9 @@ pub enum Ty {
 pub enum TypedOp {
     Read(Ty),
     Write(Ty, u8),
+    /// two typed handles (i64 and String) are taken while the key is still absent, then a value is written through
+    /// each, the i64 handle first (true) or the String handle first (false): the second write must not retype it
+    TwoHandles(bool, u8),
 }
 
 #[derive(Clone, Debug, Serialize, Deserialize)]
@@ -527,6 +530,36 @@ fn typed_check(props: &mut Props, key: &str, init: Option<Value>, ops: &[TypedOp
                     }
                 }
             }
+            TypedOp::TwoHandles(int_first, n) => {
+                if !matches!(state, TState::Absent) {
+                    continue;
+                }
+                let (hi, hs) = (props.get::<i64>(key), props.get::<String>(key));
+                let (Ok(mut hi), Ok(mut hs)) = (hi, hs) else {
+                    vfail!("typed-read-of-absent-key", "op {i}: a typed handle for the absent key '{key}' could not be taken")
+                };
+                let (vi, vs) = (*n as i64 - 7, format!("h{n}"));
+                // the losing write may be refused in any way (error, panic); it must not succeed in retyping
+                let (first, want) = if *int_first {
+                    hi.set(vi);
+                    let _ = catch(|| hs.set(vs.clone()));
+                    (Ty::I64, format!("{vi:?}"))
+                } else {
+                    hs.set(vs.clone());
+                    let _ = catch(|| hi.set(vi));
+                    (Ty::Str, format!("{vs:?}"))
+                };
+                *nt = true;
+                let as_int = props.get::<i64>(key).ok().map(|p| p.get().map(|v| format!("{v:?}")));
+                let as_str = props.get::<String>(key).ok().map(|p| p.get().map(|v| format!("{v:?}")));
+                let (same, other) = if *int_first { (as_int, as_str) } else { (as_str, as_int) };
+                vensure!(
+                    same == Some(Some(want.clone())) && other.is_none(),
+                    "type-reinterpreted",
+                    "op {i}: key '{key}' was first written as {first:?} = {want} through one handle and then written through a handle of the other type taken earlier: reading it as {first:?} gives {same:?}, as the other type {other:?}"
+                );
+                state = TState::Typed(first, want);
+            }
             TypedOp::Write(ty, n) => {
                 let got: Result<String, ()> = match ty {
                     Ty::I64 => write!(i64, *n as i64 - 100),
@@ -628,7 +661,11 @@ impl Prop for C17 {
         let free_entry = (proptest::collection::vec(comp, 1..=4), 0u8..PROPS.len() as u8, val.clone())
             .prop_map(|(comps, prop, val)| Entry { comps, prop, val });
         let ty = prop_oneof![Just(Ty::I64), Just(Ty::U8), Just(Ty::Bool), Just(Ty::Str), Just(Ty::F64), Just(Ty::VecStr)];
-        let top = prop_oneof![3 => ty.clone().prop_map(TypedOp::Read), 1 => (ty, any::<u8>()).prop_map(|(t, n)| TypedOp::Write(t, n))];
+        let top = prop_oneof![
+            6 => ty.clone().prop_map(TypedOp::Read),
+            2 => (ty, any::<u8>()).prop_map(|(t, n)| TypedOp::Write(t, n)),
+            1 => (any::<bool>(), any::<u8>()).prop_map(|(f, n)| TypedOp::TwoHandles(f, n)),
+        ];
         let typed = proptest::collection::vec((any::<u16>(), any::<u16>(), proptest::collection::vec(top, 1..5)), 0..3);
         let (nm_max, ne_max) = tier.pick((5, 10), (8, 20));
         proptest::collection::vec(path, 1..nm_max)
